@@ -380,6 +380,22 @@ fn history(seed: u64, h: u64, steps: u64) {
             a += 1;
         }
     }
+    // one history in twelve is a ban storm: more than 1024 insertions into one BanList, short bans, ticks in between:
+    // the periodic sweep of expired entries happens (and must never drop a live ban)
+    if h % 12 == 7 {
+        for i in 0..1100u64 {
+            let a = 1 + rng.below(n);
+            let t = [1, 2, 5, 3600][rng.below(4) as usize];
+            w.store.verif_ban_addr(&w.u.addrs[a as usize - 1].clone(), t * 1000, "verif".into());
+            w.emit(json!({"ev": "BanAddr", "a": a, "t": t}));
+            if i % 3 == 2 {
+                let d = 1 + rng.below(3);
+                w.now += d;
+                w.set_time();
+                w.emit(json!({"ev": "Tick", "d": d}));
+            }
+        }
+    }
     for _ in 0..steps {
         let r = rng.below(100);
         let sids: Vec<SessionId> = {
